@@ -23,6 +23,7 @@ pub struct ServerRig {
     pub core: Arc<Core>,
     cmd: Sender<bool>,
     res: Receiver<String>,
+    early: std::cell::RefCell<Option<String>>,
     thread: Option<std::thread::JoinHandle<()>>,
 }
 
@@ -68,13 +69,44 @@ impl ServerRig {
             core,
             cmd: ctx,
             res: rrx,
+            early: std::cell::RefCell::new(None),
             thread: Some(thread),
         }
     }
 
     /// Ask the server thread for one handle_request(); returns its result or "hang".
     pub fn serve_once(&self, timeout_ms: u64) -> String {
+        self.start_serve();
+        self.wait_result(timeout_ms)
+    }
+
+    pub fn start_serve(&self) {
         self.cmd.send(true).unwrap();
+    }
+
+    /// Wait until the server has consumed everything written so far (or `ms` elapsed).
+    pub fn wait_drained(&self, ms: u64) -> bool {
+        let t0 = std::time::Instant::now();
+        while fionread(self.srv_dup.as_raw_fd()) > 0 {
+            if self.early.borrow().is_some() {
+                return false; // the server already returned: nobody will read the rest
+            }
+            if let Ok(r) = self.res.try_recv() {
+                *self.early.borrow_mut() = Some(r);
+                return false;
+            }
+            if t0.elapsed() > Duration::from_millis(ms) {
+                return false;
+            }
+            std::thread::sleep(Duration::from_micros(20));
+        }
+        true
+    }
+
+    pub fn wait_result(&self, timeout_ms: u64) -> String {
+        if let Some(r) = self.early.borrow_mut().take() {
+            return r;
+        }
         match self.res.recv_timeout(Duration::from_millis(timeout_ms)) {
             Ok(s) => s,
             Err(_) => {
@@ -129,8 +161,34 @@ pub fn do_step(rig: &ServerRig, step: &Value, rng: &mut Rng) -> Value {
     let fds: Vec<i32> = b.files.iter().map(|f| f.as_raw_fd()).collect();
     let fdids: Vec<String> = fds.iter().map(|f| fd_id(*f)).collect();
     let bytes = b.bytes();
-    let sent_ok = raw_send_all(&rig.peer, &bytes, &fds).is_ok();
-    let res = rig.serve_once(3000);
+    let seg: Vec<usize> = step["seg"].as_array().map(|a| a.iter().map(|x| x.as_u64().unwrap() as usize).collect()).unwrap_or_default();
+    let cut: i64 = step["cut"].as_i64().unwrap_or(-1);
+    let fdseg: usize = step["fdseg"].as_u64().unwrap_or(0) as usize;
+    let mut sent_ok = true;
+    let res;
+    if seg.is_empty() && cut < 0 {
+        sent_ok = raw_send_all(&rig.peer, &bytes, &fds).is_ok();
+        res = rig.serve_once(3000);
+    } else {
+        // real segment boundaries: write a segment, wait until the receiver has drained it
+        rig.start_serve();
+        let end = if cut >= 0 { cut as usize } else { bytes.len() };
+        let mut bounds: Vec<usize> = seg.iter().cloned().filter(|x| *x < end).collect();
+        bounds.push(end);
+        let mut from = 0;
+        for (i, to) in bounds.iter().enumerate() {
+            if *to > from {
+                let f: &[i32] = if i == fdseg { &fds } else { &[] };
+                sent_ok &= raw_send_all(&rig.peer, &bytes[from..*to], f).is_ok();
+                rig.wait_drained(1000);
+            }
+            from = *to;
+        }
+        if cut >= 0 {
+            let _ = rig.peer.shutdown(std::net::Shutdown::Write);
+        }
+        res = rig.wait_result(3000);
+    }
     let leftover = fionread(rig.srv_dup.as_raw_fd());
     let (chunks, eof) = raw_drain(&rig.peer);
     let (msgs, extra) = split_messages(&chunks);
@@ -145,7 +203,7 @@ pub fn do_step(rig: &ServerRig, step: &Value, rng: &mut Rng) -> Value {
         "ev": "req", "c": code, "nr": nr, "h": h, "var": var, "v": bits(v),
         "shape": step["shape"].as_str().unwrap_or(""),
         "flags": b.flags, "size": b.size, "blen": b.body.len(), "nfds": fds.len(), "fdids": fdids,
-        "args": b.args, "sent": sent_ok,
+        "args": b.args, "sent": sent_ok, "seg": seg, "cut": cut, "fdseg": fdseg, "mlen": bytes.len(),
         "res": res, "calls": calls, "ncalls": calls.len(),
         "out": msgs, "nout": msgs.len(), "out_extra": extra, "leftover": leftover, "eof": eof,
     })
@@ -160,7 +218,7 @@ pub fn run(cases: &[Value], trace: &mut Trace, seed: u64) {
         trace.emit(json!({"ev": "reset", "id": case["id"], "dev": case["dev"], "adapter": adapter}));
         for step in case["steps"].as_array().unwrap() {
             let ev = do_step(&rig, step, &mut rng);
-            let dead = ev["res"].as_str().unwrap().starts_with("hang");
+            let dead = ev["res"].as_str().unwrap().starts_with("hang") || ev["cut"].as_i64().unwrap_or(-1) >= 0;
             trace.emit(ev);
             if dead {
                 break;
